@@ -234,8 +234,11 @@ func VH_C19_keys() {
 
 // VH_C19_fields: entity id, endpoints, flags and validity.
 func VH_C19_fields() {
-	sp := &SAMLServiceProvider{Clock: vClock("sp"), ServiceProviderIssuer: vString("spIssuer"), AssertionConsumerServiceURL: vString("acs"),
-		ServiceProviderSLOURL: vString("slo"), SignAuthnRequests: vBool("signAuthn"), SkipSignatureValidation: vBool("skipSig")}
+	sp := &SAMLServiceProvider{}
+	vhNoiseConfig(sp) // IdP endpoints / bindings, request options: nothing of this may show in the SP's own metadata
+	sp.Clock, sp.ServiceProviderIssuer, sp.AssertionConsumerServiceURL = vClock("sp"), vString("spIssuer"), vString("acs")
+	sp.ServiceProviderSLOURL, sp.SignAuthnRequests, sp.SkipSignatureValidation = vString("slo"), vBool("signAuthn"), vBool("skipSig")
+	sp.AudienceURI, sp.IdentityProviderIssuer = vString("cfg.audience"), vString("cfg.idpIssuer")
 	sp.SPKeyStore = &vhKS{key: &rsa.PrivateKey{}, cert: vBytes("certA")}
 	vAssume(len(sp.SPKeyStore.(*vhKS).cert) > 0)
 	slo := vFlag("withSLO")
